@@ -42,6 +42,14 @@ func NewProcessor(gw *Gateway, tunnel *Tunnel) *Processor {
 const tunnelId = 10
 
 func (p *Processor) Process(ctx context.Context) error {
+	// whatever ends the packet loop also ends the connection to the remote
+	// desktop server; the goroutine relaying from it stops on its next read
+	defer func() {
+		if p.tunnel.rwc != nil {
+			p.tunnel.rwc.Close()
+		}
+	}()
+
 	for {
 		pt, sz, pkt, err := p.tunnel.Read()
 		verifPoint("process.afterRead")
